@@ -238,13 +238,19 @@ theorem subset_of_nodup_length {α : Type} {l m : List α} (hl : l.Nodup) (hs : 
   have := (List.subperm_of_subset hl (fun x hx => hs x hx)).perm_of_length_le hlen
   exact fun x hx => this.symm.subset hx
 
+/-- **PickOk**: the recorded choice among DISTINCT cached solutions is one the code can make (`PickValid` of Basic.lean asks the
+same of lists with repetitions, which nothing can satisfy; the cached tuples form a set) -/
+def PickOk (E : Env) : Prop :=
+  ∀ all n k, all.Nodup → subsetB (E.pick all n k) all = true ∧ (E.pick all n k).length = min n all.length ∧
+    (E.pick all n k).foldl listInsert [] = E.pick all n k
+
 /-- with a valid recorded choice: `min n |all|` distinct cached tuples; only the event counter moves -/
-theorem getBatchSolutions_spec {E : Env} (hP : PickValid E) (asts : List Exp) (n : Nat) (extra : List Con) (s : St) :
+theorem getBatchSolutions_spec {E : Env} (hP : PickOk E) (asts : List Exp) (n : Nat) (extra : List Con) (s : St) :
     ∃ chosen, getBatchSolutions E asts n extra s = (.ok chosen, { s with tick := s.tick + 1 }) ∧
       (∀ t ∈ chosen, t ∈ allBatchSolutions E s.fe asts extra true) ∧
       chosen.length = min n (allBatchSolutions E s.fe asts extra true).length ∧ chosen.Nodup ∧
       (chosen.length < n → ∀ t ∈ allBatchSolutions E s.fe asts extra true, t ∈ chosen) := by
-  obtain ⟨h1, h2, h3⟩ := hP (allBatchSolutions E s.fe asts extra true) n s.tick
+  obtain ⟨h1, h2, h3⟩ := hP (allBatchSolutions E s.fe asts extra true) n s.tick (nodup_allBatchSolutions E s.fe asts extra)
   have hsub : ∀ t ∈ E.pick (allBatchSolutions E s.fe asts extra true) n s.tick,
       t ∈ allBatchSolutions E s.fe asts extra true := by
     intro t ht
@@ -441,7 +447,7 @@ def BatchFast (E : Env) (fe : Frontend) (asts : List Exp) (n : Nat) (extra : Lis
 
 /-- **eval / batch_eval, from the cache**: enough cached tuples, or one expression flagged eval-exhausted (no extra
 constraints, a model cached): the answer comes from the cache and is what the specification demands -/
-theorem mc_batchEval_fast {sup : Ops} {s : St} (hP : PickValid E) (h : MCInv RE E U s.fe) (asts : List Exp)
+theorem mc_batchEval_fast {sup : Ops} {s : St} (hP : PickOk E) (h : MCInv RE E U s.fe) (asts : List Exp)
     (hre : ∀ e ∈ asts, RE e) (n : Nat) (extra : List Con) (hfast : BatchFast E s.fe asts n extra) :
     ∃ ts, modelCacheBatchEval E sup asts n extra s = (.ok ts, { s with tick := s.tick + 1 }) ∧
       TuplesOk (U ++ extra) asts n ts ∧ (∀ t ∈ ts, t ∈ allBatchSolutions E s.fe asts extra true) ∧
@@ -482,7 +488,7 @@ theorem mc_batchEval_fast {sup : Ops} {s : St} (hP : PickValid E) (h : MCInv RE 
     · right; omega
 
 /-- the same for `eval` in the form of `Judge` -/
-theorem mc_eval_fast {self sup : Ops} {s : St} (hP : PickValid E) (h : MCInv RE E U s.fe) (e : Exp) (he : RE e)
+theorem mc_eval_fast {self sup : Ops} {s : St} (hP : PickOk E) (h : MCInv RE E U s.fe) (e : Exp) (he : RE e)
     (hc : e.conc = none) (n : Nat) (extra : List Con) (hfast : BatchFast E s.fe [e] n extra) :
     ∃ vs, (modelCacheLayer E self sup).eval e n extra s = (.ok vs, { s with tick := s.tick + 1 }) ∧
       Judge U (.eval e n extra) (.vals vs) := by
